@@ -34,7 +34,7 @@ def plan(tier, seed):
 
 def thresholds(tier):
   t = {"design_backend_pairs": 100, "texts_compared": 300, "module_tables_checked": 100, "standalone_bodies_compared": 200,
-       "parameterisations": 300, "hashed_module_names": 20, "full_names_checked": 150, "instance_statements_checked": 120, "multi_unit_texts_compared": 100, "duplicate_module_probes": 6, "retranslations_compared": 8, "struct_name_probes": 20, "struct_name_probe_controls_translated": 2, "explicit_file_name_probes": 12, "explicit_file_name_probe_controls_clean": 2, "duplicate_module_probe_controls_clean": 3, "reserved_word_probes": 1500, "reserved_word_probe_controls_translated": 100}
+       "parameterisations": 300, "hashed_module_names": 20, "full_names_checked": 150, "instance_statements_checked": 120, "multi_unit_texts_compared": 100, "duplicate_module_probes": 8, "retranslations_compared": 8, "struct_name_probes": 20, "struct_name_probe_controls_translated": 2, "explicit_file_name_probes": 12, "explicit_file_name_probe_controls_clean": 2, "duplicate_module_probe_controls_clean": 4, "reserved_word_probes": 1500, "reserved_word_probe_controls_translated": 100}
   if tier == "thorough":
     t = {k: v * 8 for k, v in t.items()}
     t["multi_unit_texts_compared"] = 100; t["duplicate_module_probes"] = 6; t["retranslations_compared"] = 8; t["struct_name_probes"] = 20; t["struct_name_probe_controls_translated"] = 2; t["duplicate_module_probe_controls_clean"] = 3; t["reserved_word_probes"] = 1500; t["reserved_word_probe_controls_translated"] = 100       # same size in both tiers
@@ -441,6 +441,16 @@ class VDecr(VerilogPlaceholder, Component):
 class VDecrWide(VDecr):               # the same Verilog module behind a second placeholder class (another default)
   def construct(s, nbits=16):
     super().construct(nbits)
+class VPassN(VerilogPlaceholder, Component):      # the construct argument selects the Verilog module; no Verilog parameters
+  def construct(s, nbits):
+    s.in_ = InPort(nbits); s.out = OutPort(nbits)
+    s.set_metadata(VerilogPlaceholderPass.src_file, VFILE2)
+    s.set_metadata(VerilogPlaceholderPass.top_module, 'VPass%d' % nbits)
+class TwoArgs(Component):
+  def construct(s, second):
+    s.i8 = InPort(8); s.o8 = OutPort(8); s.i16 = InPort(second); s.o16 = OutPort(second)
+    s.p8 = VPassN(8); s.p16 = VPassN(second)
+    s.p8.in_ //= s.i8; s.o8 //= s.p8.out; s.p16.in_ //= s.i16; s.o16 //= s.p16.out
 class TwoWrappers(Component):
   def construct(s, second):
     s.i8 = InPort(8); s.o8 = OutPort(8); s.i16 = InPort(16); s.o16 = OutPort(16)
@@ -510,8 +520,11 @@ def run_dupmodule_probes(sh):
   from pymtl3.passes.backends.verilog import VerilogPlaceholderPass, VerilogTranslationPass as P
   vfile = os.path.join(os.getcwd(), "VDecr.v")
   with open(vfile, "w") as f: f.write(VDECR_V)
+  vfile2 = os.path.join(os.getcwd(), "VPassN.v")
+  with open(vfile2, "w") as f:
+    f.write("".join(f"module VPass{n}\n(\n  input  logic clk,\n  input  logic reset,\n  input  logic [{n - 1}:0] in_,\n  output logic [{n - 1}:0] out\n);\n  assign out = in_ + {n}'d{n};\nendmodule\n" for n in (8, 16)))
   pyfile = os.path.join(os.getcwd(), "c13dup_mod.py")
-  with open(pyfile, "w") as f: f.write(DUP_SRC.replace("VFILE", repr(vfile)))
+  with open(pyfile, "w") as f: f.write(DUP_SRC.replace("VFILE2", repr(vfile2)).replace("VFILE", repr(vfile)))
   spec = importlib.util.spec_from_file_location("c13dup_mod", pyfile)
   mod = importlib.util.module_from_spec(spec); sys.modules["c13dup_mod"] = mod; spec.loader.exec_module(mod)
   def tr(top, placeholder=True):
@@ -531,6 +544,20 @@ def run_dupmodule_probes(sh):
         sh.violation("module-defined-more-than-once-after-preprocessing", {"design": "two placeholders for the Verilog module VDecr, the second through " + second, "modules": d,
                      "guards": re.findall(r"^`ifndef (\w+)", text, re.M)}, mechanism="placeholder-source-guard-keyed-by-python-class-name" if second == "subclass" else None, case=("dup", "wrappers", second))
       elif second == "same-class": sh.count("duplicate_module_probe_controls_clean")
+    # (d) one placeholder class whose construct argument selects the wrapped Verilog module (no Verilog parameters)
+    for second in (16, 8):
+      text, _, _ = tr(mod.TwoArgs(second)); sh.count("duplicate_module_probes")
+      d = dups(text)
+      inst = dict((i, m) for m, i in re.findall(r"^\s*(\w+)\s+(p8|p16)\s*$", text, re.M))
+      wraps = {}
+      for m_ in set(inst.values()):
+        b_ = re.search(r"^\s*module\s+" + re.escape(m_) + r"\b(.*?)^\s*endmodule", _preprocess(text), re.M | re.S)
+        wraps[m_] = sorted(set(re.findall(r"\b(VPass\d+)\b", b_.group(1)))) if b_ else None
+      if d or len(inst) != 2 or (second == 16 and (inst["p8"] == inst["p16"] or wraps.get(inst["p8"]) != ["VPass8"] or wraps.get(inst["p16"]) != ["VPass16"])):
+        sh.violation("module-defined-more-than-once-after-preprocessing" if d else "instances-with-different-bodies-share-one-module-name",
+                     {"design": f"placeholder class VPassN(nbits) without Verilog parameters, instantiated as VPassN(8) and VPassN({second})", "modules_defined_twice": d,
+                      "instances": inst, "wrapped_modules": wraps}, case=("dup", "ctor-args", second))
+      elif second == 8: sh.count("duplicate_module_probe_controls_clean")
     # (b) an earlier translation result as a placeholder next to a component it contains
     t0, f0, m0 = tr(mod.Stage(), placeholder=False)
     SV = mod.mk_stagev(os.path.join(os.getcwd(), f0), m0)
